@@ -1,21 +1,203 @@
-(* C14 (provisional file while the truncated-segment defect is being reported). *)
+(* C14 - stored updates round-trip through the WAL-entry, segment and checkpoint framing; damaged
+   storage is detected, not decoded.  Only the property statements; proofs are in
+   Proofs/WalProofs.v and Proofs/CodecProofs.v.
+
+   Every theorem is stated for an ARBITRARY checksum function [crc] whose results fit in 32 bits
+   (the type of crc32fast::hash) and an arbitrary payload-validity predicate [deser_ok]
+   (bincode::deserialize succeeds); payloads are arbitrary byte strings.  Where detection of
+   altered bytes needs two checksums to differ, that inequality is an explicit hypothesis.
+   Truncation results assume nothing about crc.  Sizes and magics come from Gen/Consts.v,
+   regenerated from segment.rs / checkpoint.rs / wal.rs on every run.
+   (The gossip encoding is serde_json: exercised by the correspondence harness, not modelled.) *)
 From Coq Require Import NArith List.
-From RV Require Import Lib.Hex Lib.Bytes Lib.Crc32 Gen.Consts Model.Wal Model.Codec Proofs.WalProofs Proofs.CodecProofs.
+From RV Require Import Lib.Hex Lib.Bytes Lib.Crc32 Gen.Consts Model.Wal Model.Codec.
+From RV Require Proofs.WalProofs.
+From RV Require Import Proofs.CodecProofs.
 Import ListNotations.
 Local Open Scope N_scope.
 
-Theorem C14_wal_entry_roundtrip : forall (crc : bytes -> N) e rest, wf_entry crc e ->
+(* ---------------- WAL entry ---------------- *)
+Theorem C14_wal_entry_roundtrip : forall (crc : bytes -> N) e rest, WalProofs.wf_entry crc e ->
   decode_entry crc (encode_entry e ++ rest) = Ok (Some (e, 16 + lenN (e_data e))).
-Proof. exact decode_encode. Qed.
+Proof. exact WalProofs.decode_encode. Qed.
 Print Assumptions C14_wal_entry_roundtrip.
 
-(* A strict prefix of a valid segment image that open + validate + read_all accept, yielding
-   fewer records than were written. *)
-Theorem C14_segment_prefix_refuted : exists img (k : nat) ps ps',
-  (exists h, seg_read crc32 (fun _ => true) img = Ok (h, ps)) /\ (k < length img)%nat /\
-  (exists h, seg_read crc32 (fun _ => true) (firstn k img) = Ok (h, ps')) /\ ps' <> ps.
+(* every strict prefix of an encoded entry is "None" (which ends WAL recovery) *)
+Theorem C14_wal_entry_prefix_rejected : forall (crc : bytes -> N) e (k : nat),
+  lenN (e_data e) < U32 -> (k < length (encode_entry e))%nat ->
+  decode_entry crc (firstn k (encode_entry e)) = Ok None.
+Proof. exact WalProofs.decode_truncated. Qed.
+Print Assumptions C14_wal_entry_prefix_rejected.
+
+(* payload or stored checksum altered: rejected when crc(data as stored) <> checksum as stored *)
+Theorem C14_wal_entry_corruption_rejected : forall (crc : bytes -> N) len ts ck data rest,
+  len = lenN data -> len < U32 -> ck < U32 -> crc data <> ck ->
+  decode_entry crc (entry_header len ts ck ++ data ++ rest) = Ok None.
+Proof. exact WalProofs.decode_bad_crc. Qed.
+Print Assumptions C14_wal_entry_corruption_rejected.
+
+(* KNOWN FINDING C14-wal-entry-header-unprotected (= C10-entry-header-unprotected): the stamp
+   field is not covered; an entry whose stamp was replaced decodes, with the replaced stamp. *)
+Theorem C14_wal_entry_stamp_unprotected : forall (crc : bytes -> N) e ts' rest,
+  WalProofs.wf_entry crc e -> ts' < U64 ->
+  decode_entry crc (entry_header (lenN (e_data e)) ts' (e_crc e) ++ e_data e ++ rest)
+  = Ok (Some (Entry ts' (e_data e) (e_crc e), 16 + lenN (e_data e))).
+Proof. exact WalProofs.decode_stamp_replaced. Qed.
+Print Assumptions C14_wal_entry_stamp_unprotected.
+
+(* ---------------- segment ---------------- *)
+(* all batches of >= 1 records, arbitrary binary payloads, all stamps *)
+Theorem C14_segment_roundtrip : forall (crc : bytes -> N) (deser_ok : bytes -> bool),
+  (forall d, crc d < U32) ->
+  forall recs img,
+  recs <> [] -> lenN recs < U32 -> Forall (rec_wf deser_ok) recs -> lenN (seg_records_bytes recs) < U64 ->
+  seg_write crc recs = Ok img ->
+  seg_read crc deser_ok img = Ok (seg_hdr_of crc recs, map snd recs).
+Proof. exact segment_roundtrip. Qed.
+Print Assumptions C14_segment_roundtrip.
+
+(* EVERY strict prefix of a written segment is an error of open / validate / read_all - no
+   assumption about crc: a payload may imitate a footer, including its checksum; the record
+   count of the (intact) header closes that case (repo commit 929bfe5). *)
+Theorem C14_segment_prefix_rejected : forall (crc : bytes -> N) (deser_ok : bytes -> bool),
+  (forall d, crc d < U32) ->
+  forall recs img (k : nat),
+  recs <> [] -> lenN recs < U32 -> Forall (rec_wf deser_ok) recs ->
+  seg_write crc recs = Ok img -> (k < length img)%nat ->
+  exists e, seg_read crc deser_ok (firstn k img) = Err e.
+Proof. exact segment_prefix_rejected. Qed.
+Print Assumptions C14_segment_prefix_rejected.
+
+(* damage confined to a checksum-covered region of a segment is an error, given that the
+   checksums involved differ (named hypothesis per region); footer magic: outright *)
+Theorem C14_segment_covered_corruption_rejected : forall (crc : bytes -> N) (deser_ok : bytes -> bool),
+  (forall d, crc d < U32) ->
+  (* record region replaced by any bytes rd', or stored data checksum replaced by fck *)
+  (forall h pad rd' fck us cs,
+     seg_hdr_wf h -> seg_hdr_valid crc h -> sh_flags h = 0 -> lenN pad = 10 ->
+     fck < U32 -> us < U64 -> cs < U64 ->
+     crc rd' <> fck ->
+     seg_read crc deser_ok (seg_hdr_image h pad ++ rd' ++ seg_ftr_image fck us cs SEGMENT_FOOTER_MAGIC)
+     = Err EChecksum) /\
+  (* header fields or stored header checksum altered: the 40 bytes parse as h' *)
+  (forall h' pad rd fb,
+     seg_hdr_wf h' -> lenN pad = 10 -> lenN fb = 24 ->
+     sh_ck h' <> crc (seg_fields_of h') ->
+     exists e, seg_read crc deser_ok (seg_hdr_image h' pad ++ rd ++ fb) = Err e /\
+               (e = EMagic \/ e = EVersion \/ e = EChecksum)) /\
+  (* footer magic altered *)
+  (forall h pad rd fck us cs m,
+     seg_hdr_wf h -> seg_hdr_valid crc h -> lenN pad = 10 ->
+     fck < U32 -> us < U64 -> cs < U64 -> lenN m = 4 -> m <> SEGMENT_FOOTER_MAGIC ->
+     seg_read crc deser_ok (seg_hdr_image h pad ++ rd ++ seg_ftr_image fck us cs m) = Err EMagic).
 Proof.
-  exists wit_seg, 72%nat, [wit_p0; wit_p1], [wit_p0].
-  destruct segment_prefix_witness as (A & B & C). repeat split; auto. discriminate.
+  intros crc deser_ok H.
+  exact (conj (seg_data_corruption_rejected crc deser_ok H)
+        (conj (seg_header_corruption_rejected crc deser_ok H) (seg_footer_magic_rejected crc deser_ok H))).
 Qed.
-Print Assumptions C14_segment_prefix_refuted.
+Print Assumptions C14_segment_covered_corruption_rejected.
+
+(* bytes no checksum covers - the 10 padding bytes of the header and the footer's two size
+   fields - do not influence what is decoded *)
+Theorem C14_segment_uncovered_bytes_harmless : forall (crc : bytes -> N) (deser_ok : bytes -> bool),
+  (forall d, crc d < U32) ->
+  forall h pad ps us cs,
+  seg_hdr_wf h -> seg_hdr_valid crc h -> sh_flags h = 0 -> sh_count h = lenN ps ->
+  lenN pad = 10 -> us < U64 -> cs < U64 ->
+  Forall (fun p => payload_ok p /\ deser_ok p = true) ps ->
+  seg_read crc deser_ok
+    (seg_image h pad ps (crc (concat (map seg_record ps))) us cs SEGMENT_FOOTER_MAGIC) = Ok (h, ps).
+Proof. exact seg_read_image. Qed.
+Print Assumptions C14_segment_uncovered_bytes_harmless.
+
+(* ---------------- checkpoint ---------------- *)
+Theorem C14_checkpoint_roundtrip : forall (crc : bytes -> N) (deser_ok : bytes -> bool),
+  (forall d, crc d < U32) ->
+  forall keys ts last data,
+  keys < U64 -> ts < U64 -> last < U64 -> lenN data < U32 -> deser_ok data = true ->
+  chk_read crc deser_ok (chk_write crc keys ts last data) = Ok (chk_hdr_new crc keys ts last, data).
+Proof. exact checkpoint_roundtrip. Qed.
+Print Assumptions C14_checkpoint_roundtrip.
+
+(* EVERY strict prefix of a written checkpoint is rejected (open / validate) - no assumption
+   about crc *)
+Theorem C14_checkpoint_prefix_rejected : forall (crc : bytes -> N) (deser_ok : bytes -> bool),
+  (forall d, crc d < U32) ->
+  forall keys ts last data (k : nat),
+  keys < U64 -> ts < U64 -> last < U64 -> lenN data < U32 ->
+  (k < length (chk_write crc keys ts last data))%nat ->
+  chk_read crc deser_ok (firstn k (chk_write crc keys ts last data)) = Err ETooShort.
+Proof. exact checkpoint_prefix_rejected. Qed.
+Print Assumptions C14_checkpoint_prefix_rejected.
+
+Theorem C14_checkpoint_covered_corruption_rejected : forall (crc : bytes -> N) (deser_ok : bytes -> bool),
+  (forall d, crc d < U32) ->
+  (* data section replaced by any bytes data' (length field consistent) *)
+  (forall h pad rsv data' dck dsz trailing,
+     chk_hdr_wf h -> chk_hdr_valid crc h -> N.odd (ch_flags h) = false ->
+     lenN pad = 2 -> lenN rsv = 12 -> lenN data' < U32 -> dck < U32 -> dsz < U64 ->
+     crc data' <> dck ->
+     chk_read crc deser_ok (chk_image h pad rsv data' dck dsz (crc (le_enc 4 dck ++ le_enc 8 dsz)) trailing)
+     = Err EChecksum) /\
+  (* footer fields (data checksum, data size) or the footer checksum altered *)
+  (forall h pad rsv data dck dsz fck trailing,
+     chk_hdr_wf h -> chk_hdr_valid crc h -> lenN pad = 2 -> lenN rsv = 12 ->
+     lenN data < U32 -> dck < U32 -> dsz < U64 -> fck < U32 ->
+     fck <> crc (le_enc 4 dck ++ le_enc 8 dsz) ->
+     chk_read crc deser_ok (chk_image h pad rsv data dck dsz fck trailing) = Err EChecksum) /\
+  (* header fields or stored header checksum altered: the 48 bytes parse as h' *)
+  (forall h' pad rsv rest,
+     chk_hdr_wf h' -> lenN pad = 2 -> lenN rsv = 12 ->
+     ch_ck h' <> crc (chk_fields_of h') ->
+     exists e, chk_read crc deser_ok (chk_hdr_image h' pad rsv ++ rest) = Err e /\
+               (e = EMagic \/ e = EVersion \/ e = EChecksum)).
+Proof.
+  intros crc deser_ok H.
+  exact (conj (chk_data_corruption_rejected crc deser_ok H)
+        (conj (chk_footer_corruption_rejected crc deser_ok H) (chk_header_corruption_rejected crc deser_ok H))).
+Qed.
+Print Assumptions C14_checkpoint_covered_corruption_rejected.
+
+(* uncovered bytes of a checkpoint - 2 padding bytes, 12 reserved bytes, anything after the
+   footer - do not influence what is decoded *)
+Theorem C14_checkpoint_uncovered_bytes_harmless : forall (crc : bytes -> N) (deser_ok : bytes -> bool),
+  (forall d, crc d < U32) ->
+  forall h pad rsv data trailing,
+  chk_hdr_wf h -> chk_hdr_valid crc h -> N.odd (ch_flags h) = false ->
+  lenN pad = 2 -> lenN rsv = 12 -> lenN data < U32 -> deser_ok data = true ->
+  chk_read crc deser_ok (chk_image h pad rsv data (crc data) (lenN data)
+                          (crc (le_enc 4 (crc data) ++ le_enc 8 (lenN data))) trailing) = Ok (h, data).
+Proof. exact chk_read_image. Qed.
+Print Assumptions C14_checkpoint_uncovered_bytes_harmless.
+
+(* ---------------- totality: arbitrary bytes never panic ---------------- *)
+(* open + validate + read_all of a segment; open + validate + load of a checkpoint; and load
+   WITHOUT validate (repo commit 54aabd4; before it that path panicked on short images) *)
+Theorem C14_readers_never_panic : forall (crc : bytes -> N) (deser_ok : bytes -> bool),
+  (forall d, crc d < U32) ->
+  forall img,
+  (seg_read crc deser_ok img <> Panic /\ seg_read crc deser_ok img <> Err EOutOfFuel) /\
+  (chk_read crc deser_ok img <> Panic /\ chk_read_unchecked crc deser_ok img <> Panic).
+Proof.
+  intros crc deser_ok H img.
+  exact (conj (seg_read_total crc deser_ok H img) (chk_read_total crc deser_ok H img)).
+Qed.
+Print Assumptions C14_readers_never_panic.
+
+(* ---------------- concrete instances (real CRC-32) ---------------- *)
+(* the forged-footer image of the repaired defect: a valid 2-record segment whose 72-byte
+   prefix passes open and validate, and is now rejected by read_all *)
+Example C14_forged_footer_prefix_rejected :
+  seg_write crc32 wit_recs = Ok wit_seg /\
+  (exists h, seg_read crc32 (fun _ => true) wit_seg = Ok (h, [wit_p0; wit_p1])) /\
+  (72 < length wit_seg)%nat /\
+  (exists s, seg_open crc32 (firstn 72 wit_seg) = Ok s /\ seg_validate crc32 s = Ok tt) /\
+  seg_read crc32 (fun _ => true) (firstn 72 wit_seg) = Err ETooShort.
+Proof. exact forged_footer_witness. Qed.
+Print Assumptions C14_forged_footer_prefix_rejected.
+
+(* the hypotheses of the segment theorems are satisfiable *)
+Example C14_nonvacuous :
+  Forall (rec_wf (fun _ => true)) wit_recs /\ wit_recs <> [] /\ lenN wit_recs < U32.
+Proof. exact rec_wf_example. Qed.
+Print Assumptions C14_nonvacuous.
